@@ -333,6 +333,27 @@ def _probe_translated(fn):
             if got != want:
                 return {"piece_length": n if n < 2 ** 70 else f"2**{n.bit_length() - 1}+…",
                         "got": got, "model": want}
+    elif fn == "safe_join":
+        import posixpath
+        comps = ["a", "b", "..", ".", "", "d", "tmp", "x y", "..x", "...", "d2"]
+        dests = ["/tmp/d", "/d", "/tmp/d/e", "/", "/a/b"]
+        for _ in range(6000):
+            dest = rng.choice(dests)
+            rel = rng.choice(["", "/", "//", "///"]) * (rng.random() < 0.2) + \
+                rng.choice(["/", "//"]).join(rng.choice(comps) for _ in range(rng.randrange(0, 6)))
+            try:
+                got = f(dest, rel)
+            except Exception as exc:        # noqa: BLE001
+                got = "raised " + repr(exc)[:80]
+            # independent reading: resolve lexically, demand a proper extension of dest
+            full = posixpath.normpath(posixpath.join(dest, rel))
+            if full.startswith("//"):
+                full = full[1:]
+            base = dest.rstrip("/") or "/"
+            inside = full != base and (full.startswith(base + "/") if base != "/" else full.startswith("/") and full != "/")
+            want = full if inside else None
+            if got != want:
+                return {"dest": dest, "relpath": rel, "got": got, "model": want}
     elif fn == "merkle_root":
         def ref(l):
             if not l:
